@@ -29,10 +29,11 @@ package siml
 //   - re-put of a live container without the meta flag: the statement does not
 //     say whether the flag is cleared; the model follows storage for that bit.
 //   - zero-amount Transfer/TransferX notifications (fee 0): not compared.
-//   - NNS record of an alias that was given before a ≥10-year clock jump and
-//     whose container is deleted after it: the name has expired, the contract's
-//     tolerant clean-up cannot reach the record, and its reappearance after
-//     somebody re-registers the name is NNS's business (C12), not judged here.
+//   - NNS record of a name that was given before a ≥10-year clock jump and is
+//     released (container deleted, or put again under another name) after it:
+//     the name has expired, the contract's tolerant clean-up cannot reach the
+//     record, and its reappearance after somebody re-registers the name is
+//     NNS's business (C12), not judged here.
 
 import (
 	"bytes"
@@ -164,7 +165,11 @@ func ctGenOp(t *rapid.T) ctOp {
 type ctAlias struct {
 	domain string
 	era    int // number of ≥10-year clock jumps before the name was given
+	rel    int // … before it was released (container deleted or put under another name); -1: still borne
 }
+
+// expired: the name was given before a jump that preceded its release.
+func (a ctAlias) expired() bool { return a.rel >= 0 && a.era < a.rel }
 
 type ctTable struct{ value, sig, pub, token []byte }
 
@@ -187,7 +192,6 @@ func (c *ctCont) alias() string {
 
 type ctDead struct {
 	aliases []ctAlias
-	expired []bool // the name was given before a jump that preceded the deletion
 }
 
 type ctModel struct {
@@ -419,6 +423,8 @@ func (e *ctEngine) run() {
 	e.stranger = DetKey("ct/stranger")
 	e.nnsUser = DetKey("ct/nnsuser")
 	e.r.Tracef("world n=%d alphabet=%d-of-%d committee=%d-of-%d fee=%d aliasFee=%d poor=%v jump=%v", e.n, e.n*2/3+1, e.n, e.n/2+1, e.n, fee0, afee0, poor, e.allowJump)
+
+	e.r.Sweep = e.readAPI
 
 	// set-up block (part of the history): ordinary Alphabet mints; with clock
 	// jumps enabled the committee prolongs both zones so that names can expire
@@ -833,7 +839,11 @@ func (e *ctEngine) predict(st *ctModel, bt *ctTx) ctPred {
 			}
 			c.sig, c.pub, c.token = bt.sig, bt.pub, bt.token
 			if bt.named {
-				c.aliases = append(c.aliases, ctAlias{domain: bt.domain, era: era})
+				// a live container put under another name gives up the previous one
+				if n := len(c.aliases); n > 0 && c.aliases[n-1].domain != bt.domain {
+					c.aliases[n-1].rel = era
+				}
+				c.aliases = append(c.aliases, ctAlias{domain: bt.domain, era: era, rel: -1})
 			}
 			m.bal[acc] -= need
 			for _, node := range e.nodes {
@@ -858,9 +868,11 @@ func (e *ctEngine) predict(st *ctModel, bt *ctTx) ctPred {
 			cevs: []ctEvent{{name: "DeleteSuccess", a: id}},
 			apply: func(m *ctModel) {
 				c := m.live[id]
-				d := &ctDead{aliases: c.aliases}
-				for _, a := range c.aliases {
-					d.expired = append(d.expired, a.era < era)
+				d := &ctDead{aliases: append([]ctAlias(nil), c.aliases...)}
+				for j := range d.aliases {
+					if d.aliases[j].rel < 0 {
+						d.aliases[j].rel = era
+					}
 				}
 				delete(m.live, id)
 				m.dead[id] = d
@@ -972,7 +984,9 @@ func (e *ctEngine) block(pending []*ctTx, dt uint64) {
 	for i, bt := range pending {
 		txs[i] = bt.tx
 	}
+	h0 := w.Height()
 	aers := w.AddBlock(txs, dt)
+	hooked := w.Height() != h0+1 // a block hook (C16 upgrades) put blocks of its own in front
 	r.AddBlock(len(txs), dt)
 	if len(pending) > 1 {
 		r.Inject("sched.pack")
@@ -1077,7 +1091,7 @@ func (e *ctEngine) block(pending []*ctTx, dt uint64) {
 				d := m.dead[string(bt.cid)]
 				for j, a := range d.aliases {
 					delete(namedPut, a.domain)
-					if d.expired[j] {
+					if j == len(d.aliases)-1 && a.expired() {
 						r.Count("probe.delete_after_alias_expired")
 					}
 				}
@@ -1103,7 +1117,7 @@ func (e *ctEngine) block(pending []*ctTx, dt uint64) {
 	}
 	// ---- state oracles after the block ----
 	curC, curB := w.Scan(e.cnrID, nil), w.Scan(e.balID, nil)
-	if len(pending) == 1 && !anyTook {
+	if len(pending) == 1 && !anyTook && !hooked {
 		rule := "C04/refused-call-changed-state"
 		if pending[0].kind <= ctPutMeta {
 			rule = "C05/refused-put-changed-state"
@@ -1302,6 +1316,87 @@ func (e *ctEngine) checkStorage(cur []KV) {
 			}
 		}
 	}
+}
+
+// ctSweep collects deterministic "contract.method(args)=value" lines (the
+// read-API view C16 compares across an upgrade).
+type ctSweep struct {
+	w   *World
+	out []string
+}
+
+// add reads one getter; a FAULT is the value "FAULT"; with asSet the elements
+// of a returned list (or drained iterator) are sorted.
+func (s *ctSweep) add(h util.Uint160, contract, method string, asSet bool, args ...any) {
+	it, err := s.w.Read(h, method, args...)
+	var sb strings.Builder
+	switch {
+	case err != nil:
+		sb.WriteString("FAULT")
+	case asSet:
+		if arr, ok := it.Value().([]stackitem.Item); ok {
+			var l []string
+			for _, x := range arr {
+				var eb strings.Builder
+				itemRepr(&eb, x, 0)
+				l = append(l, eb.String())
+			}
+			sort.Strings(l)
+			sb.WriteString("{" + strings.Join(l, ",") + "}")
+		} else {
+			itemRepr(&sb, it, 0)
+		}
+	default:
+		itemRepr(&sb, it, 0)
+	}
+	s.out = append(s.out, fmt.Sprintf("%s.%s(%x)=%s", contract, method, args, sb.String()))
+}
+
+// versions adds version() of every deployed FS contract of the world.
+func (s *ctSweep) versions() {
+	for _, name := range []string{"balance", "container", "neofsid", "netmap", "nns"} {
+		if d := s.w.C[name]; d != nil {
+			s.add(d.Hash, name, "version", false)
+		}
+	}
+}
+
+// readAPI is the engine's complete read-API view of its world (r.Sweep).
+func (e *ctEngine) readAPI() []string {
+	s := &ctSweep{w: e.w}
+	ids := [][]byte{ctBytes("ct/never-registered", 32)}
+	for _, b := range e.blobs {
+		ids = append(ids, b.id)
+	}
+	for _, id := range ids {
+		for _, g := range []string{"get", "owner", "alias", "eACL"} {
+			s.add(e.cnr, "container", g, false, id)
+		}
+	}
+	s.add(e.cnr, "container", "count", false)
+	s.add(e.cnr, "container", "list", true, []byte{})
+	s.add(e.cnr, "container", "containersOf", true, []byte{})
+	for _, o := range e.owners {
+		s.add(e.cnr, "container", "list", true, o.id)
+		s.add(e.cnr, "container", "containersOf", true, o.id)
+	}
+	for _, o := range e.owners {
+		s.add(e.bal, "balance", "balanceOf", false, []byte(o.acc))
+	}
+	for _, n := range e.nodes {
+		s.add(e.bal, "balance", "balanceOf", false, []byte(n))
+	}
+	s.add(e.bal, "balance", "totalSupply", false)
+	s.add(e.nm, "netmap", "config", false, []byte("ContainerFee"))
+	s.add(e.nm, "netmap", "config", false, []byte("ContainerAliasFee"))
+	s.add(e.nm, "netmap", "epoch", false)
+	for z := range ctZones {
+		for n := range ctNames {
+			s.add(e.nns, "nns", "getRecords", false, ctDomain(n, z), ctTXT)
+		}
+	}
+	s.versions()
+	return s.out
 }
 
 // ctCall is one read-only invocation.
@@ -1537,20 +1632,22 @@ func (e *ctEngine) checkNNS(namedPut map[string]string) {
 	sort.Strings(doms)
 	for _, d := range doms {
 		// only the name the container currently bears: putting a live container
-		// again under another name releases the previous one (fix e… in /repo;
-		// whether the earlier record survives until deletion is not demanded by
-		// the statement, only that nothing is left after deletion)
+		// again under another name releases the previous one (judged below)
 		if id := namedPut[d]; m.live[id] != nil && len(m.live[id].aliases) > 0 && m.live[id].aliases[len(m.live[id].aliases)-1].domain == d && !has(d, id) {
 			r.Violation("C04/alias-record-missing", "", "putNamed(%s, %s) succeeded in this block and nobody touched the name since, but NNS has no TXT record of the container under it (records %q)", e.idName(id), d, e.records(d))
 		}
 	}
-	for _, id := range e.sortedDead() {
-		dd := m.dead[id]
-		for j, a := range dd.aliases {
-			if dd.expired[j] {
-				// DON'T CARE: the name was given before a ten-year jump and the
-				// container deleted after it; the record is out of the contract's
-				// reach and NNS's treatment of expired names is C12's business.
+	// released names: of live containers (put again under another name) and of
+	// deleted ones (every name they ever bore)
+	judge := func(id string, aliases []ctAlias, current string, dead bool) {
+		for j, a := range aliases {
+			if a.rel < 0 || (!dead && a.domain == current) {
+				continue // the name the container bears now (possibly once more)
+			}
+			if a.expired() {
+				// DON'T CARE: the name was given before a ten-year jump and
+				// released after it; the record is out of the contract's reach
+				// and NNS's treatment of expired names is C12's business.
 				if has(a.domain, id) {
 					r.Count("probe.expired_alias_record_served_again")
 				}
@@ -1559,12 +1656,21 @@ func (e *ctEngine) checkNNS(namedPut map[string]string) {
 			if !has(a.domain, id) {
 				continue
 			}
-			last := dd.aliases[len(dd.aliases)-1].domain
-			if a.domain == last {
-				r.Violation("C04/alias-record-left-after-delete", "", "%s was deleted with alias %s; NNS still serves TXT %s under it", e.idName(id), a.domain, ctBase58([]byte(id)))
-			} else {
-				r.Violation("C04/stale-alias-record-after-delete", "reput-other-name", "%s was put as %s, later put again as %s and then deleted; NNS still serves TXT %s under %s", e.idName(id), a.domain, last, ctBase58([]byte(id)), a.domain)
+			rec := ctBase58([]byte(id))
+			switch {
+			case !dead:
+				r.Violation("C04/previous-alias-not-released", "", "%s bore the name %s and was put again as %s; NNS still serves TXT %s under %s", e.idName(id), a.domain, current, rec, a.domain)
+			case j == len(aliases)-1:
+				r.Violation("C04/alias-record-left-after-delete", "", "%s was deleted with alias %s; NNS still serves TXT %s under it", e.idName(id), a.domain, rec)
+			default:
+				r.Violation("C04/stale-alias-record-after-delete", "", "%s was put as %s, later put again as %s and then deleted; NNS still serves TXT %s under %s", e.idName(id), a.domain, aliases[len(aliases)-1].domain, rec, a.domain)
 			}
 		}
+	}
+	for _, id := range e.sortedLive() {
+		judge(id, m.live[id].aliases, m.live[id].alias(), false)
+	}
+	for _, id := range e.sortedDead() {
+		judge(id, m.dead[id].aliases, "", true)
 	}
 }
